@@ -131,7 +131,9 @@ Section Rx.
   Inductive op :=
   | Dgram (g : bytes) (src : N)     (* a datagram arrives at the transport *)
   | SvcReceives | SvcRxGrams | SvcRxMemos
-  | SvcAllRx | SvcAllRxOnce.
+  | SvcAllRx | SvcAllRxOnce
+  | RxSet (o : cfgop).             (* the receiver's own .code / .curt / .size (its TRANSMIT settings) are set:
+                                      no effect whatsoever on the receive side *)
 
   Definition do_receives (once : bool) (s : state) : state * option exn :=
     let '(es, q, x) := (if once then receives_once else receives) (rxgs s) (queue s) in
@@ -165,6 +167,7 @@ Section Rx.
       | (s', Some k) => (s', Some k)
       | (s', None) => (do_rx_memos true (do_rx_grams s'), None)
       end
+    | RxSet _ => (s, None)
     end.
 
   Fixpoint run (s : state) (ops : list op) : state * list (option exn) :=
